@@ -9,12 +9,15 @@ pub mod nd;
 pub mod probe;
 pub mod stubs;
 pub mod util;
+pub mod rt;
 #[cfg(not(kani))]
 pub mod mreplay;
 pub mod drive;
 
 pub mod h {
     pub mod c03;
+    pub mod c09;
+    pub mod c10;
     pub mod dbg;
     pub mod c12;
     pub mod c13;
@@ -23,7 +26,7 @@ pub mod h {
 use nd::FileNd;
 
 pub fn lookup(name: &str) -> Option<fn(&mut FileNd)> {
-    let tables: &[&[(&str, fn(&mut FileNd))]] = &[h::c03::TABLE, h::c12::TABLE, h::c13::TABLE, h::dbg::TABLE];
+    let tables: &[&[(&str, fn(&mut FileNd))]] = &[h::c03::TABLE, h::c09::TABLE, h::c10::TABLE, h::c12::TABLE, h::c13::TABLE, h::dbg::TABLE];
     for t in tables {
         for (n, f) in t.iter() {
             if *n == name {
@@ -35,6 +38,6 @@ pub fn lookup(name: &str) -> Option<fn(&mut FileNd)> {
 }
 
 pub fn all_names() -> Vec<&'static str> {
-    let tables: &[&[(&str, fn(&mut FileNd))]] = &[h::c03::TABLE, h::c12::TABLE, h::c13::TABLE, h::dbg::TABLE];
+    let tables: &[&[(&str, fn(&mut FileNd))]] = &[h::c03::TABLE, h::c09::TABLE, h::c10::TABLE, h::c12::TABLE, h::c13::TABLE, h::dbg::TABLE];
     tables.iter().flat_map(|t| t.iter().map(|(n, _)| *n)).collect()
 }
